@@ -321,7 +321,7 @@ MUTATORS = ["{v}.append(0)\n{v}.append(1)\n", "{v}.append(7)\n", "{v}.remove(1)\
             "def grow():\n    {v}.append(3)\ngrow()\n", "{v} = {v} * 2\n", "{v}.append(len({v}))\n", "w2 = {v}\nw2.append(8)\n", "{v} = 5\n", "{v} += 1\n"]
 READERS = ["m = len({v})\nmon.write(m)\n", "led.flash_pattern({v}, 100)\n", "led.flash_pattern({v})\n", "mon.write({v}[0])\n", "for i in range(len({v})):\n    led.toggle()\n",
            "m = len({v}) + 1\nsleep(m)\n", "lcd.glyph(0, {v})\n", "mon.write({v})\n", "sleep({v})\n", "k = {v}\nmon.write(len(k))\n",
-           "if len({v}) > 3:\n    led.on()\n", "led.blink(len({v}), 2)\n", "mon.write(f\"{{len({v})}}\")\n", "q = max({v})\nmon.write(q)\n"]
+           "if len({v}) > 3:\n    led.on()\n", "led.blink(len({v}), 2)\n", "mon.write(f\"{len({v})}\")\n", "q = max({v})\nmon.write(q)\n"]
 SESSION_HEADER = ("from Reduino.Actuators import Led\nfrom Reduino.Communication import SerialMonitor\nfrom Reduino.Utils import sleep\nfrom Reduino.Displays import LCD\n"
                   "led = Led(13)\nmon = SerialMonitor(9600)\nlcd = LCD(rs=12, en=11, d4=5, d5=4, d6=3, d7=2)\nn = 3\n")
 NAMES = ["steps", "xs", "p", "data"]
@@ -354,9 +354,61 @@ def session_scripts(rng, n_lit, n_mut, n_read):
         for u in ("def f({v}):\n    return {v} + 1\ny = f(2)\nmon.write(y)\n", "for {v} in range(3):\n    mon.write({v})\n", "{v}, w = 4, 5\nmon.write({v} + w)\n",
                   "sleep({v})\n", "mon.write({v})\n", "led.blink({v}, 2)\n", "m = len({v})\nmon.write(m)\n", "led.flash_pattern({v})\n", "y = {v} + 1\nmon.write(y)\n",
                   "if {v} > 1:\n    led.on()\n", "while {v} < 3:\n    led.toggle()\n", "{v} += 1\nmon.write({v})\n", "def g():\n    return {v}\nmon.write(g())\n",
-                  "{v} = analog_read(\"A0\")\nmon.write({v} + 1)\n", "led2 = Led({v})\n", "mon.write(f\"{{{v}}}\")\n", "ys = [{v}, 1]\nmon.write(len(ys))\n"):
+                  "{v} = analog_read(\"A0\")\nmon.write({v} + 1)\n", "led2 = Led({v})\n", "mon.write(f\"{{v}}\")\n", "ys = [{v}, 1]\nmon.write(len(ys))\n"):
             users.append(SESSION_HEADER.replace("from Reduino.Displays import LCD\n", "from Reduino.Displays import LCD\nfrom Reduino.Core import analog_read\n") + u.replace("{v}", v))
     out["<names in other roles>"] = {"readers": users, "mutators": definers}
+    return out
+
+
+# names the transpiler treats specially, bound by a script in every way Python binds a name: the builtins the constant evaluator
+# folds (its whitelist of name references), and names of the Reduino API.  Whatever such a script is transpiled to (most are
+# rejected: the identifier is reserved in C++), the next script of the same process must not notice.
+FOLDED_BUILTINS = {
+    "len": ["len(\"abc\")", "len([1, 2, 3])"], "abs": ["abs(-5)", "abs(-2.5)"], "max": ["max(100, 250)", "max(3, 7, 5)"], "min": ["min(255, 300)", "min(9, 4)"],
+    "int": ["int(\"13\")", "int(2.75)"], "float": ["float(\"2.5\")", "float(3)"], "bool": ["bool(2)", "bool(0)"], "str": ["str(12)", "str(2.5)"],
+}
+API_NAMES = ["sleep", "range", "Led", "LCD", "SerialMonitor", "print", "target", "led", "mon", "Servo", "map", "millis", "OUTPUT", "pin_mode"]
+BINDERS = [
+    "def {b}(a):\n    return a\ny = {b}(3)\nmon.write(y)\n", "def {b}(a, c):\n    return a\n", "def {b}():\n    return 1\nwhile True:\n    mon.write({b}())\n    sleep(100)\n",
+    "{b} = 5\nmon.write({b})\n", "{b} = analog_read(\"A0\")\nmon.write({b})\n", "for {b} in range(3):\n    mon.write({b})\n", "def f({b}):\n    return {b} + 1\nmon.write(f(2))\n",
+    "{b}, w = 1, 2\nmon.write(w)\n", "def g():\n    global {b}\n    {b} = 4\ng()\n", "import math as {b}\n", "from math import floor as {b}\n", "class {b}:\n    pass\n",
+    "try:\n    {b} = 1\nexcept Exception:\n    {b} = 2\n", "{b} += 1\n", "del {b}\n", "if n > 1:\n    def {b}(a):\n        return a\n", "def outer():\n    def {b}(a):\n        return a\n    return {b}(1)\nmon.write(outer())\n",
+    "{b} = [1, 2]\n{b}.append(3)\nmon.write(len({b}))\n", "{b} = lambda a: a\n", "def f(a, {b}=2):\n    return a\nmon.write(f(1))\n", "with open(\"x\") as {b}:\n    pass\n", "@{b}\ndef h():\n    return 1\nmon.write(h())\n",
+]
+FOLD_USES = ["p = {c}\nmon.write(p)\n", "mon.write({c})\n", "mon.write(f\"v{{c}}\")\n", "ys = [{c}, 1]\nmon.write(len(ys))\n", "if {c}:\n    led.on()\n", "def h():\n    return {c}\nmon.write(h())\n",
+             "while True:\n    mon.write({c})\n    sleep(50)\n", "lcd.write(0, 0, {c})\n"]
+FOLD_USES_NUM = ["sleep({c})\n", "led.set_brightness({c})\n", "led2 = Led({c})\n", "led.blink({c}, 2)\n", "for i in range({c}):\n    led.toggle()\n", "k = 0\nwhile k < {c}:\n    k = k + 1\n",
+                 "q = {c} + 1\nsleep(q)\n", "led.flash_pattern([1, 0], {c})\n"]
+SHADOW_HEADER = SESSION_HEADER.replace("from Reduino.Displays import LCD\n", "from Reduino.Displays import LCD\nfrom Reduino.Core import analog_read\n")
+
+
+def shadow_scripts(rng, thorough):
+    """[(definer, [user, ...]), ...]: a script that binds a specially treated name, and the scripts transpiled directly after it"""
+    def all_uses(calls, numeric):
+        body = "".join(u.replace("{c}", c) for c in calls for u in FOLD_USES[:4] + (FOLD_USES_NUM[:2] if numeric else []))
+        return SHADOW_HEADER + body + "while True:\n" + "".join(f"    mon.write({c})\n" for c in calls) + "    sleep(50)\n"
+    users = {}
+    for b, calls in FOLDED_BUILTINS.items():
+        numeric = b not in ("str",)
+        us = [all_uses(calls, numeric)]
+        uses = FOLD_USES + (FOLD_USES_NUM if numeric else [])
+        if thorough:
+            us += [SHADOW_HEADER + u.replace("{c}", c) for c in calls for u in uses]
+        else:
+            us += [SHADOW_HEADER + u.replace("{c}", rng.choice(calls)) for u in rng.sample(uses, 3)]
+        users[b] = us
+    fold_all = all_uses([c[0] for c in FOLDED_BUILTINS.values()], False) + ""
+    fold_all = SHADOW_HEADER + "".join(f"v{i} = {c[i % 2]}\nmon.write(v{i})\n" for i, c in enumerate(FOLDED_BUILTINS.values())) + "led2 = Led(int(\"12\"))\nsleep(max(100, 250))\nled.set_brightness(min(255, 300))\n" \
+        "while True:\n    sleep(abs(-20))\n    mon.write(len(\"abcd\"))\n    mon.write(str(7))\n    for i in range(3):\n        led.toggle()\n    if bool(1):\n        mon.write(float(2))\n"
+    out = []
+    for b in FOLDED_BUILTINS:
+        forms = BINDERS if thorough else BINDERS[:9] + rng.sample(BINDERS[9:], 4)
+        for d in forms:
+            out.append((SHADOW_HEADER + d.replace("{b}", b), users[b] + [fold_all]))
+    for b in API_NAMES:
+        forms = BINDERS if thorough else BINDERS[:2] + [BINDERS[3]] + rng.sample(BINDERS[4:], 2)
+        for d in forms:
+            out.append((SHADOW_HEADER + d.replace("{b}", b), [fold_all]))
     return out
 
 
@@ -398,6 +450,37 @@ def model_session(rng, k):
         texts.append(SESSION_HEADER + "\n".join(lines) + "\n")
         wire.append(w)
     return texts, wire
+
+
+# the fragment Lang/NameSession.v speaks about: top-level defs named like / unlike the foldable builtins, calls of len on string literals
+def name_session(rng, k):
+    texts, wire = [], []
+    for _ in range(k):
+        lines, w, j = [], [], 0
+        for _ in range(rng.randint(1, 5)):
+            r = rng.random()
+            if r < 0.4:
+                f = rng.choice(["len", "len", "str", "helper"])
+                lines.append(rng.choice([f"def {f}(a):\n    return a", f"def {f}(a, b):\n    return a", f"def {f}():\n    return 1"]))
+                w.append([0, f])
+            else:
+                n = rng.randint(1, 6)
+                lines.append(f"m{j} = len(\"{'abcdef'[:n]}\")\nmon.write(m{j})")
+                w.append([1, "len", n])
+                j += 1
+        texts.append(SESSION_HEADER + "\n".join(lines) + "\n")
+        wire.append(w)
+    return texts, wire
+
+
+def observed_name_folds(cpp, wire_script):
+    """per call of the script [folded?, lit]: folded = the global is declared with the literal as its initialiser"""
+    out, j = [], 0
+    for st in wire_script:
+        if st[0] == 1:
+            out.append([1 if re.search(r"(?m)^int m%d = %d;" % (j, st[2]), cpp) else 0, st[2]])
+            j += 1
+    return out
 
 
 def observed_folds(cpp):
